@@ -100,15 +100,105 @@ pub fn check_case(ctx: &Ctx, tape: &[u8], cfg: &Cfg, stats: &mut Stats) -> Resul
     Ok(())
 }
 
+/// A text program (records, pattern rows): interpreter vs the SPSLow machine on the real lowering.
+pub fn check_text(ctx: &Ctx, text: &str, stream: &str, stats: &mut Stats) -> Result<(), Fail> {
+    let dir = thread_dir(ctx);
+    let (session, analyzed) = h::write_and_analyze(&dir, text);
+    let case = || json!({"stream": stream, "source": text[text.find("begin\n").or_else(|| text.rfind("in\n(")).unwrap_or(0)..].to_string()});
+    let Analyzed::Executable(exe, _) = analyzed else {
+        stats.count(&format!("{stream}:discarded:not-accepted"));
+        return Ok(());
+    };
+    stats.eval();
+    let irun = h::interp_run(exe, b"", 3_000_000);
+    let exe2 = match drive::analyze_executable(&session, &dir.join("case.zy")) {
+        | Analyzed::Executable(e, _) => e,
+        | _ => return Ok(()),
+    };
+    let lowered = match drive::lower(exe2) {
+        | Lowered::Ok(b) => b,
+        | Lowered::Refused(_) => {
+            stats.count(&format!("{stream}:discarded:lowering-refused"));
+            return Ok(());
+        }
+        | Lowered::Panic(_) => {
+            stats.count(&format!("{stream}:discarded:lowering-panic(C18)"));
+            return Ok(());
+        }
+    };
+    let srun = sps::run(&lowered.sps_low, b"", 20_000_000);
+    match (&srun.end, &irun.end) {
+        | (SEnd::OutOfFuel | SEnd::Undetermined(_), _) | (_, RunEnd::OutOfFuel) => {
+            stats.inconclusive += 1;
+            return Ok(());
+        }
+        // an interpreter that goes wrong is C01's subject
+        | (_, RunEnd::Stuck { .. }) => {
+            stats.count(&format!("{stream}:discarded:interpreter-stuck(C01)"));
+            return Ok(());
+        }
+        | _ => {}
+    }
+    if !(ends_agree(&srun.end, &irun.end) && srun.stdout == irun.stdout) {
+        let sig = match &srun.end {
+            | SEnd::Stuck(why) => format!("sps-stuck[{}]", why.chars().take(48).collect::<String>()),
+            | _ if srun.stdout != irun.stdout => "stdout-differs".to_string(),
+            | _ => "end-differs".to_string(),
+        };
+        return Err(Fail::new(
+            sig,
+            format!("interpreter: {:?} stdout={:?}", irun.end, String::from_utf8_lossy(&irun.stdout)),
+            format!("SPSLow machine: {:?} stdout={:?}", srun.end, String::from_utf8_lossy(&srun.stdout)),
+        )
+        .with(case()));
+    }
+    stats.count(&format!("{stream}:agree"));
+    if srun.stdout.iter().filter(|b| **b == b'\n').count() >= 2 {
+        stats.nontrivial(hash_of(text));
+    }
+    Ok(())
+}
+
+/// Pattern-row programs of C04 (accepted ones run every enumerated value) as a text stream.
+pub fn pattern_program(ctx: &Ctx, tape: &[u8]) -> Option<String> {
+    use crate::props::c04;
+    let (w, types) = c04::catalogue();
+    let (_tname, ty, rows, form) = c04::random_case(&w, &types, tape);
+    if rows.is_empty() {
+        return None;
+    }
+    let mut values = w.values(&ty, 3, 2000);
+    if values.len() > 24 {
+        let step = values.len() as f64 / 24.0;
+        values = (0..24).map(|i| values[(i as f64 * step) as usize].clone()).collect();
+    }
+    if values.is_empty() {
+        return None;
+    }
+    Some(c04::run_program_text(ctx, &w, &ty, &rows, form, &values).0)
+}
+
 pub fn run(ctx: &Ctx) -> Report {
     let mut report = Report::new(
         "generated core OS programs (as C02) with a generated stdin; the SpsLowProgram produced by the real lowering \
          is run by an independent first-order SPS machine with the host model and compared (stdout bytes, exit code / \
-         trap) with the interpreter's run of the same source; non-trivial as C02; distinct by source hash",
+         trap) with the interpreter's run of the same source; plus two text streams run the same way: record programs (nested named products, every projection) and pattern-row programs (C04's rows applied to every enumerated value); non-trivial as C02; distinct by source hash",
     );
     let cfg = ctx.tier.pick(Cfg::quick(), Cfg::thorough());
     let cases = ctx.tier.pick(2_500, 60_000);
     let r = run_tapes(ctx, "generated", cases, 700, |tape, stats| check_case(ctx, tape, &cfg, stats));
+    report.absorb(r);
+    let cases = ctx.tier.pick(800, 20_000);
+    let r = run_tapes(ctx, "records", cases, 60, |tape, stats| {
+        let (text, _, _) = crate::props::records::record_program(ctx, tape);
+        check_text(ctx, &text, "records", stats)
+    });
+    report.absorb(r);
+    let cases = ctx.tier.pick(800, 20_000);
+    let r = run_tapes(ctx, "patterns", cases, 120, |tape, stats| match pattern_program(ctx, tape) {
+        | Some(text) => check_text(ctx, &text, "patterns", stats),
+        | None => Ok(()),
+    });
     report.absorb(r);
     report.assume("M-sps (harness/src/sps.rs) implements the semantics documented for SPSLow; it reads the repo's arena types but shares no evaluation code");
     report.assume("the property stops at SPSLow: assembly and AMD64 text are not executed (no nasm/runtime offline)");
@@ -118,6 +208,16 @@ pub fn run(ctx: &Ctx) -> Report {
 pub fn replay(ctx: &Ctx, doc: &Value) -> Result<(), Fail> {
     let tape = unhex(doc["tape_hex"].as_str().unwrap_or(""));
     let mut stats = Stats::new();
+    if doc["stage"] == "records" {
+        let (text, _, _) = crate::props::records::record_program(ctx, &tape);
+        return check_text(ctx, &text, "records", &mut stats);
+    }
+    if doc["stage"] == "patterns" {
+        return match pattern_program(ctx, &tape) {
+            | Some(text) => check_text(ctx, &text, "patterns", &mut stats),
+            | None => Ok(()),
+        };
+    }
     check_case(ctx, &tape, &Cfg::quick(), &mut stats)?;
     check_case(ctx, &tape, &Cfg::thorough(), &mut stats)
 }
